@@ -32,6 +32,8 @@ class World:
         self.rel_tasks = []
         self.fetch_errors = []
         self.fetches = 0
+        self.in_acquire = {}    # worker name -> nesting depth inside acquire(_proxy) of the SUPPLIED pool
+        self.checkouts = 0      # connections handed out by the supplied pool
 
     def fail(self, kind, where, detail):
         if len(self.failures) < 20:
@@ -63,9 +65,22 @@ class Server:
             parts = line.split(b' ')
             target = parts[1] if len(parts) > 1 else b''
             self.world.requests.append(target)
+            path = target
+            if path.startswith(b'http://') or path.startswith(b'https://'):
+                path = b'/' + path.split(b'/', 3)[3] if path.count(b'/') >= 3 else b'/'
             close = target.endswith(b'close')
-            msg = (b'HTTP/1.1 200 OK\r\nContent-Length: 2\r\n' + (b'Connection: close\r\n' if close else b'')
-                   + b'\r\nok')
+            hop = None
+            if path.startswith(b'/hop') and len(path) > 5 and path[4:5].isdigit():
+                hop = (int(path[4:5]), path[5:6], path[6:])
+            if hop and hop[0] > 0:
+                # a non-final hop of a chain: redirect to the next one; 'c' = this response closes the connection
+                n, flag, rest = hop
+                close = flag == b'c'
+                msg = (b'HTTP/1.1 302 Found\r\nLocation: /hop%d%s%s\r\nContent-Length: 0\r\n' % (n - 1, flag, rest)
+                       + (b'Connection: close\r\n' if close else b'') + b'\r\n')
+            else:
+                msg = (b'HTTP/1.1 200 OK\r\nContent-Length: 2\r\n' + (b'Connection: close\r\n' if close else b'')
+                       + b'\r\nok')
             def deliver(conn=conn, msg=msg, close=close):
                 conn.send(msg)
                 if close:
@@ -96,7 +111,13 @@ def instrument_pool(world, pool):
     def wrap_acquire(orig):
         @asyncio.coroutine
         def acquire(*a, **kw):
-            conn = yield from orig(*a, **kw)
+            me0 = worker_name()
+            world.in_acquire[me0] = world.in_acquire.get(me0, 0) + 1
+            try:
+                conn = yield from orig(*a, **kw)
+            finally:
+                world.in_acquire[me0] -= 1
+            world.checkouts += 1
             me = worker_name()
             prev = world.owner.get(id(conn))
             if prev is not None and prev != me:
@@ -217,9 +238,29 @@ class FaultNet(fakenet.FakeNet):
             raise asyncio.TimeoutError()
         raise ValueError('unknown fault kind %r' % kind)
 
+    world = None
+    limit = None            # per-host limit of the supplied pool, enforced at the network (plain pool stream only)
+
+    def observe(self, host, port):
+        world = self.world
+        if world is None:
+            return
+        me = worker_name()
+        if me is not None and not world.in_acquire.get(me) and me not in world.owner.values():
+            world.fail('bypass', 'connection-outside-supplied-pool',
+                       '%s opens a connection to %s:%s without having checked one out of the pool the client was given '
+                       '(check-outs of that pool so far: %d, connections opened: %d)' % (me, host, port, world.checkouts, self.attempts))
+        if self.limit is not None:
+            open_now = sum(1 for c in self.conns if c.address == (host, port) and not c.client_closed and not c.server_closed)
+            if open_now + 1 > self.limit:
+                world.fail('over-allocated', 'network',
+                           '%d connections open to %s:%s at once, the pool given to the client allows %d per host'
+                           % (open_now + 1, host, port, self.limit))
+
     async def open_connection(self, host=None, port=None, **kwargs):
         n = self.attempts
         self.attempts += 1
+        self.observe(host, port)
         if n in self.refuse_attempts:
             self.raise_kind('refused')
         if n in self.netfaults:
@@ -245,6 +286,30 @@ def run_case(case):
     loop = sched.new_det_loop(case['seed'])
     net = FaultNet(case.get('refuse', ()), case.get('netfaults'), case.get('tlsfaults'))
     net.default = lambda: Server(world)
+    net.world = world
+    if case['stream'] == 'session':
+        net.limit = case['M']
+    table = {'origin%d.test' % k: '10.0.1.%d' % (10 + k) for k in range(4)}
+    # stdlib entry points of this loop only: no thread pool, no system resolver (a client that silently builds its own
+    # default pool gets wpull's default Resolver)
+    compat.disable_dns_python()
+
+    def run_in_executor(executor, func, *args):
+        fut = loop.create_future()
+        try:
+            fut.set_result(func(*args))
+        except Exception as e:      # noqa
+            fut.set_exception(e)
+        return fut
+
+    async def getaddrinfo(host, port, *, family=0, type=0, proto=0, flags=0):
+        import socket
+        ip = table.get(host, '10.0.0.1')
+        if family == socket.AF_INET6:
+            raise socket.gaierror(socket.EAI_NONAME, 'no AAAA')
+        return [(socket.AF_INET, socket.SOCK_STREAM, proto, '', (ip, port))]
+    loop.run_in_executor = run_in_executor
+    loop.getaddrinfo = getaddrinfo
     faulty = bool(case.get('refuse') or case.get('netfaults') or case.get('tlsfaults') or case.get('cancels')) or \
         any('badtunnel' in j[0] or 'garbled' in j[0] for jobs in case['workers'] for j in jobs)
     try:
@@ -255,12 +320,14 @@ def run_case(case):
                 ctx.check_hostname = False
                 ctx.verify_mode = ssl.CERT_NONE
                 pool = HTTPProxyConnectionPool(('proxy.test', 8080), max_host_count=case['M'],
-                                               resolver=fakenet.FakeResolver(), ssl_context=ctx)
+                                               resolver=fakenet.FakeResolver(table), ssl_context=ctx)
             else:
-                pool = ConnectionPool(max_host_count=case['M'], resolver=fakenet.FakeResolver())
+                pool = ConnectionPool(max_host_count=case['M'], resolver=fakenet.FakeResolver(table))
             instrument_pool(world, pool)
-            client = Client(connection_pool=pool, stream_factory=functools.partial(Stream, keep_alive=True))
-            web_client = WebClient(client)
+            # several clients are given the same (still empty) pool, as the application does
+            clients = [Client(connection_pool=pool, stream_factory=functools.partial(Stream, keep_alive=True))
+                       for _ in range(2)]
+            web_clients = [WebClient(c) for c in clients]
             workers = []
             pending_fault = {}      # worker name -> (event, kind) for the next http session it creates
 
@@ -275,11 +342,14 @@ def run_case(case):
                             raise (InjectedOSError(28, 'injected: No space left on device') if kind == 'os'
                                    else InjectedError('injected: listener bug'))
                     session.event_dispatcher.add_listener(name, listener)
-            client.event_dispatcher.add_listener(Client.ClientEvent.new_session, on_new_session)
+            for c in clients:
+                c.event_dispatcher.add_listener(Client.ClientEvent.new_session, on_new_session)
 
             async def fetch(i, url, linger, mode, fault):
                 if fault:
                     pending_fault['w%s' % i] = tuple(fault)     # pairs (event, kind)
+                which = (i if isinstance(i, int) else 0) % 2
+                client, web_client = clients[which], web_clients[which]
                 if mode in ('client', 'client-abandon'):
                     with client.session() as session:
                         await compat._ensure(session.start(Request(url)))
@@ -417,6 +487,9 @@ def gen_case(rng, stream, faults=False):
             else:
                 scheme = 'http'
             path = '/w%dj%d%s' % (w, j, 'close' if rng.random() < 0.15 else '')
+            if rng.random() < 0.3:
+                # a redirect chain: n non-final hops, each closing ('c') or keeping ('k') the connection
+                path = '/hop%d%s%s' % (rng.choice([1, 1, 2, 3]), rng.choice('cck'), path)
             host = rng.choice(hosts)
             mode, fault = 'web', None
             if faults:
@@ -484,6 +557,8 @@ def check(ctx, case):
                 tags.append('front:mode=' + j[2])
     if case.get('refuse'):
         tags.append('front:connect-refused')
+    if any('/hop' in j[0] for jobs in case['workers'] for j in jobs):
+        tags.append('front:redirect-chain')
     for k in ('netfaults', 'tlsfaults'):
         for kind in (case.get(k) or {}).values():
             tags.append('front:%s:%s' % (k, kind))
